@@ -4,8 +4,8 @@
    [run (init up0 a0) evs = fold_left step evs (init up0 a0)] for ALL event lists [evs]
    (disabled events leave the state unchanged), all initial operating states [up0] and
    addresses [a0].  Histories are the append-only [log]. *)
-From Coq Require Import NArith List Bool Arith Lia.
-From LLRP Require Import Driver.Supervisor Driver.SupervisorProofs.
+From Coq Require Import ZArith NArith List Bool Arith Lia.
+From LLRP Require Import Driver.Supervisor Driver.SupervisorProofs Driver.SupervisorRetry.
 Import ListNotations.
 
 (* 1. retries until stopped: after any finite run without Stop, a Dial is enabled — at once, or
@@ -127,3 +127,98 @@ Proof. vm_compute. reflexivity. Qed.
 Example C15_stop_in_quick_backoff :
   reports (log (run (init true 1%N) [Dial Refused; Stop false])) = [Down].
 Proof. vm_compute. reflexivity. Qed.
+
+(* ------------------------------------------------------------------------------------------
+   Consistency of the supervisor model with the model of ExpBackOff.RetryWithCtx
+   (Retry/RetryLoop.v, property C18).  Abstraction function (Driver/SupervisorRetry.v):
+   a dial attempt = a call of the retried func, its result as device.go's callback returns it
+   ([cb]: ClosedNormally -> nil, everything else -> (true, err), never (false, err));
+   [quick_result draw ds stop] = retry.Quick.RetryWithCtx(ctx, maxConnAttempts, dial) run by
+   [R.retry_run_cfg] with Quick's configuration (50 ms, 30 s, jitter) on the history "outcomes ds
+   ahead, Stop (if any) when they are used up, no deadline, jitter draws [draw]";
+   [slow_result draw draw' rds stop] = retry.Slow.RetryWithCtx(ctx, Forever, slow func) with
+   Slow's configuration (5 s, 30 min, jitter) on the rounds rds, the slow func returning nil for
+   a quick phase that returned nil and (true, err) for every *FError -- also a cancelled one:
+   `case context.Canceled` never matches; [kind_of] = how RetryWithCtx ended
+   (nil / retries exceeded / context cancelled / still looping).
+   For every sequence of dial outcomes, every position of Stop and all jitter draws: the
+   supervisor's history of each phase is [phase_log] / [rounds_log] of exactly the attempts /
+   rounds RetryWithCtx ran -- Down block exactly when the quick phase returned an *FError, as
+   the last entry of the phase -- and the state it is left in is the one the result dictates. *)
+Theorem C15_supervisor_retry_agrees_with_retry_model :
+  (* quick phase: Quick.RetryWithCtx(ctx, maxConnAttempts, dial) *)
+  (forall draw s ds stop force,
+    round_start s -> forallb five ds = true -> (ds <> [] \/ stop = true) ->
+    (ds = [] -> in_slow s = false) ->
+    let r := quick_result draw ds stop in
+    let used := firstn (R.runs r) ds in
+    let s' := run s (quick_events r ds force) in
+    log s' = log s ++ phase_log (cur_addr s) (isUp s) used (kind_of r) /\
+    R.runs r <= max_conn_attempts /\
+    isUp s' = (if returns_ferror (kind_of r) then false else up_after (isUp s) used) /\
+    cur_addr s' = cur_addr s /\
+    match kind_of r with
+    | KNil => round_start s' /\ in_slow s' = false
+    | KExhausted => round_start s' /\ in_slow s' = true
+    | KCtx => stop = true /\ stopped s' = true
+    | KMore => stop = false /\ stopped s' = false /\ round_fails s' = 1 /\ in_slow s' = false
+    | KOtherErr => False
+    end) /\
+  (* slow phase: Slow.RetryWithCtx(ctx, Forever, slow func) over finished rounds *)
+  (forall draw draw' s rd rds stop force,
+    round_start s -> forallb finished (rd :: rds) = true ->
+    let r := slow_result draw draw' (rd :: rds) stop in
+    let done := firstn (R.runs r) (rd :: rds) in
+    let s' := run s (rounds_events done ++ (if ctx_ended r then [Stop force] else [])) in
+    log s' = log s ++ rounds_log (cur_addr s) (isUp s) done ++ (if ctx_ended r then [LStop] else []) /\
+    1 <= R.runs r <= length (rd :: rds) /\
+    isUp s' = rounds_up (isUp s) done /\
+    match kind_of r with
+    | KNil => round_start s' /\ in_slow s' = false /\ round_kind (last done []) = KNil
+    | KMore => stop = false /\ R.runs r = length (rd :: rds) /\ round_start s' /\ in_slow s' = true
+    | KCtx => stop = true /\ R.runs r = length (rd :: rds) /\ stopped s' = true
+    | KExhausted | KOtherErr => False
+    end) /\
+  (* the outer loop starts (and, after a slow phase that returned nil, starts again) in such a state *)
+  (forall up0 a0, round_start (init up0 a0) /\ in_slow (init up0 a0) = false).
+Proof. exact supervisor_retry_agrees. Qed.
+Print Assumptions C15_supervisor_retry_agrees_with_retry_model.
+
+(* Stop while a connection stands: the attempt, the quick phase and the slow phase each return
+   nil at their first call, the outer loop ends: no Down block, no further dial *)
+Theorem C15_connected_stop_agrees_with_retry_model : forall ts ts' s force, round_start s ->
+  let s' := run s [Dial Established; Stop force] in
+  let q := R.retry_run_cfg quick_cfg quick_retries keep_errs None (cb ClosedNormally) ts in
+  let sl := R.retry_run_cfg slow_cfg forever keep_errs None (scb q) ts' in
+  kind_of q = KNil /\ R.runs q = 1 /\ kind_of sl = KNil /\ R.runs sl = 1 /\
+  log s' = log s ++ LDial (cur_addr s) :: LHandshake :: up_entry (isUp s) ++ [LStop; LNormal] /\
+  stopped s' = true /\ isUp s' = true /\ dial_enabled s' = false.
+Proof. exact connected_stop_agrees. Qed.
+Print Assumptions C15_connected_stop_agrees_with_retry_model.
+
+(* THE ONE CORNER WHERE THE MODELS DIFFER (reported in notes/C15.md, exercised by neither tie):
+   Stop while the supervisor is about to dial (initially, or right after an attempt ended with
+   ErrClientClosed).  The supervisor model always runs the Down block ... *)
+Theorem C15_stop_about_to_dial_in_supervisor_model : forall s force,
+  round_start s -> in_slow s = false ->
+  log (step s (Stop force)) = log s ++ LStop :: (if isUp s then [LReport Down true] else []).
+Proof. exact about_to_dial_stop_in_supervisor. Qed.
+Print Assumptions C15_stop_about_to_dial_in_supervisor_model.
+(* ... which as a RetryWithCtx history is "context already ended when the QUICK phase is entered"
+   (first part of the theorem above with ds = []); if instead the cancellation is there when the
+   SLOW phase is entered -- equally possible in the Go code, a few instructions earlier -- the
+   slow func is never called, so there is no Down block.  Supervisor.v has no such transition. *)
+Theorem C15_retry_model_cancelled_at_slow_entry : forall first ts,
+  let r := R.retry_run_cfg slow_cfg forever keep_errs (Some R.Canceled) first ts in
+  R.runs r = 0 /\ kind_of r = KCtx.
+Proof. exact slow_entry_cancelled_no_down. Qed.
+Print Assumptions C15_retry_model_cancelled_at_slow_entry.
+
+(* non-vacuity: a round of two failed attempts (the second after a good handshake), computed by
+   the RetryWithCtx model with Quick's configuration and arbitrary draws, and the supervisor on it *)
+Example C15_retry_example :
+  let r := quick_result (fun k => Z.of_nat k) [Refused; HandshakeThenDropped; ClosedNormally] false in
+  R.runs r = 2 /\ kind_of r = KExhausted /\
+  log (run (init false 7%N) (quick_events r [Refused; HandshakeThenDropped; ClosedNormally] false)) =
+  [LDial 7%N; LFail; LDial 7%N; LHandshake; LReport Up true; LFail; LReport Down true].
+Proof. vm_compute. repeat split; reflexivity. Qed.
